@@ -522,12 +522,16 @@ def allScopesLoop (rec : St → Sx → Res) (e : Sx) : St → List String → Li
 
 def opAllScopes (rec : St → Sx → Res) (st : St) (args : List Sx) : Res :=
   match args with
-  | .list true l :: _ => do
+  | e :: _ =>
+    -- any expression form: symbol, number, string, list (the same test as reval's)
+    let okForm := match e with
+      | .sym _ _ | .int _ | .bool _ | .str _ | .flt _ | .list _ _ => true
+      | _ => false
+    if !okForm then .error (errA "all-scopes: argument must be a valid expression") else do
     let prev := st.scope
-    let (vs, st1) ← allScopesLoop rec (.list true l) st st.tc.scopes []
+    let (vs, st1) ← allScopesLoop rec e st st.tc.scopes []
     let st2 ← ({ st1 with scope := prev }).writeGlobal "CS" (.str prev)
     pure (.list false vs, st2)
-  | _ :: _ => .error (errA "all-scopes: argument must be a valid expression")
   | [] => .error (errA "all-scopes: exactly one argument required")
 
 def readCS (st : St) : Except Err String :=
